@@ -1,6 +1,8 @@
 import PdfModel.Core.Proto
 import PdfModel.Model.Storage
 import PdfModel.Drv.C02
+import PdfModel.Drv.Obj
+import PdfModel.Model.SaveBytes
 
 /-! Line-protocol handler for the C09 streams.
 
@@ -14,6 +16,11 @@ import PdfModel.Drv.C02
             the implementation's save failed, nothing to measure), `l:cached` reload the bytes and resolve
             every object number
   → one answer per op, `;`-separated (see `showRes`), or `load-err` when the base does not load
+  c09.bytes <start> <len> <startxref> <objs> <secs> <info> <ids> <ops>
+     the same base (object values reduced to their markers), the loaded info dictionary (`n`: none) and
+     the /ID strings (`~`-separated, `-`: none) as values in the notation of Drv/Obj.lean, and a history
+     `c=<val>` `u=<id>=<val>` `p` `f=<id>=<val>` `s` (`;`-separated) with full values: `save` is the byte
+     model `SaveBytes.saveB`; the answer of a save is `ok/<hex of the bytes it appended>`
   c09.bytelen <n>             → byteLen n
   c09.rowbytes <aw> <bw> <e>  → the bytes `write_stream` emits for entry e
 -/
@@ -76,7 +83,9 @@ def parseOp (s : String) : Option DOp :=
   | ["r", id] => do some (.op (.resolve (← natOf id)))
   | ["s", lens, xl, tl] => do
     let ls ← parseLens lens
-    some (.op (.save ⟨lookupLen ls, ← natOf xl, ← natOf tl⟩))
+    let x ← natOf xl
+    let t ← natOf tl
+    some (.op (.save ⟨lookupLen ls, fun _ => x, fun _ => t⟩))
   | ["s"] => some .saveNoLayout
   | ["l", c] => do some (.reloadCheck (← boolOf c))
   | _ => none
@@ -113,13 +122,55 @@ def runOps (d : Doc Tok) : List DOp → List String → List String
     let (d', r) := step P d o
     runOps d' rest (showRes d d' r :: acc)
   | .saveNoLayout :: rest, acc =>
-    let (d', r) := step P d (.save ⟨fun _ => 0, 0, 0⟩)
+    let (d', r) := step P d (.save ⟨fun _ => 0, fun _ => 0, fun _ => 0⟩)
     match r with
     | .saved _ => runOps d' rest ("ok-but-no-layout" :: acc)
     | r => runOps d' rest (showRes d d' r :: acc)
   | .reloadCheck c :: rest, acc => runOps d rest (showReload d c :: acc)
 
 def rowEntry (s : String) : Option XRef := DrvC02.parseEntry s
+
+/-! ### the byte model -/
+
+abbrev BV := DrvObj.V
+
+def parseObjB (s : String) : Option (Obj BV) :=
+  match s.splitOn ":" with
+  | [off, id, gen, tok, mem] => do
+    let t ← parseTok tok
+    let ms ← if mem == "-" then some [] else mapM? parseTok (mem.splitOn "+")
+    some ⟨← natOf off, ← natOf id, ← natOf gen, .int t.m, ms.map fun m => .int m.m⟩
+  | _ => none
+
+inductive BOp where
+  | op (o : Op BV)
+  | save
+
+def parseBOp (s : String) : Option BOp :=
+  match s.splitOn "=" with
+  | ["c", v] => do some (.op (.create (← DrvObj.valOf v)))
+  | ["u", id, v] => do some (.op (.update (← natOf id) (← DrvObj.valOf v)))
+  | ["p"] => some (.op .promise)
+  | ["f", id, v] => do some (.op (.fulfil (← natOf id) (← DrvObj.valOf v)))
+  | ["s"] => some .save
+  | _ => none
+
+def runB (b : SaveBytes.BDoc (List UInt8)) : List BOp → List String → List String
+  | [], acc => acc.reverse
+  | .op o :: rest, acc =>
+    -- the layout is irrelevant for anything but `save`
+    let (d', r) := step (SaveBytes.params id) b.doc o
+    let a := match r with
+      | .ref i g => s!"R{i}.{g}"
+      | .failed o => o.tag
+      | _ => "?"
+    runB { b with doc := d' } rest (a :: acc)
+  | .save :: rest, acc =>
+    let (b', r) := SaveBytes.saveB id b
+    match r with
+    | .ok _ => runB b' rest (("ok/" ++ hexOfBytes (b'.bytes.drop b.bytes.length)) :: acc)
+    | o => runB b' rest (o.tag :: acc)
+
 
 def handle (args : List String) : String :=
   match args with
@@ -134,6 +185,21 @@ def handle (args : List String) : String :=
       | .ok d => joinWith ";" (runOps d ops [])
       | o => s!"load-{o.tag}"
     | _, _, _, _, _, _, _ => "bad-request"
+  | ["c09.bytes", start, len, sx, objs, secs, info, ids, ops] =>
+    match natOf start, natOf len, natOf sx,
+          (if objs == "-" then some [] else mapM? parseObjB (objs.splitOn ",")),
+          (if secs == "-" then some [] else mapM? parseSec (secs.splitOn "|")),
+          (if info == "n" then some none else (DrvObj.valOf info).map some),
+          (if ids == "-" then some [] else mapM? DrvObj.valOf (ids.splitOn "~")),
+          (if ops == "-" then some [] else mapM? parseBOp (ops.splitOn ";")) with
+    | some st, some ln, some sx, some os, some ss, some inf, some ids, some ops =>
+      let raw : St BV := ⟨[], [], [], false, os, ss, ln, st, sx⟩
+      match reload raw false with
+      | .ok d =>
+        let d := { d with tr := { d.tr with info := inf } }
+        joinWith ";" (runB ⟨d, ids, []⟩ ops [])
+      | o => s!"load-{o.tag}"
+    | _, _, _, _, _, _, _, _ => "bad-request"
   | ["c09.bytelen", n] =>
     match natOf n with
     | some n => toString (byteLen n)
